@@ -186,7 +186,9 @@ def run(ctx: Ctx) -> None:
     skipped = 0
     failed_modules = []
     nco = 0
+    origin: dict[str, dict] = {}     # module name -> how replay() can rebuild it
     for modname, src in corpus_sources(ctx):
+        origin[modname] = {"module_src": src}
         (work / f"{modname}.py").write_text(src)
         evs, sk, err = p1_module_events(ctx, modname, work, "p1gen")
         skipped += sk
@@ -201,6 +203,7 @@ def run(ctx: Ctx) -> None:
             mod = ad.stdlib_copy(name, std)
             if mod is None:
                 continue
+            origin[mod] = {"stdlib": name}
             evs, sk, err = p1_module_events(ctx, mod, std, "p1std")
             skipped += sk
             nco += len(evs)
@@ -233,7 +236,7 @@ def run(ctx: Ctx) -> None:
             ctx.bad(clause, sig,
                     f"{ev['name']}: {len(ev['nodes'])} nodes, edges {ev['edges']} -> real CDG {ev['cdg']} "
                     f"root {ev['root']} raised {ev['raised']!r}" + (f" source:\n{ev['source']}" if ev.get("source") else ""),
-                    trace={"ev": [ev]}, behaviour=ev)
+                    trace={"ev": [ev]}, behaviour=dict(ev, **origin.get(ev["name"].split(":")[0], {})))
     for t in (traces[0], traces[-1]):
         ctx.sample({k: t["ev"][0][k] for k in ("src", "name", "nodes", "edges", "cdg", "root")})
     sys.stdout.flush()
@@ -246,7 +249,19 @@ def replay(ctx: Ctx, rec: dict) -> int:
     if ev["src"] == "p2":
         ev2 = ad.replay_cfg({k: ev[k] for k in ("nodes", "edges", "entry", "exit")}, name=ev["name"])
     else:
-        ev2 = ev  # P1 events are re-validated as recorded (the source module is in the detail)
+        modname = ev["name"].split(":")[0]
+        work = ctx.work / "replay"
+        work.mkdir(parents=True, exist_ok=True)
+        if "stdlib" in ev:
+            modname = ad.stdlib_copy(ev["stdlib"], work)
+        else:
+            (work / f"{modname}.py").write_text(ev["module_src"])
+        evs, _sk, _err = p1_module_events(ctx, modname, work, ev["src"])
+        same = [e for e in evs if e["name"] == ev["name"]]
+        if not same:
+            print("code object not found any more:", ev["name"])
+            return 2
+        ev2 = same[0]
     verdicts = ctx.validate("GraphsTrace", [{"ev": [ev2]}])
     print("replayed event:", ev2)
     if verdicts:
